@@ -219,7 +219,7 @@ def run(tier, seed):
         u = Unit(unit_name)
         const_unit[n] = u
         want = ["ok", str(core.f2b(float(value))), str(core.f2b(float(u.base_value))), gen.dim_vec(u.dimensions), unit_name,
-                ",".join(aliases)]
+                ",".join(aliases), gen.expr_wire(u.expr)[1]]
         chk.count("dump:const")
         if r != want:
             chk.disagree("dump.const", f"{n}: generated {r} live {want}")
@@ -440,7 +440,7 @@ def run(tier, seed):
                                         f"assert abs(mag(q) - F({str(ref)!r})) <= F({str(tol)!r}) * abs(F({str(ref)!r})), float(mag(q))\n")})
 
     # ------------------------------------------------------------------ model checks and exclusion lists
-    checks = [f"c15.check\t{w}" for w in ("relations", "numrelations", "top", "constdoubles", "unitdoubles", "unsuffixed")] \
+    checks = [f"c15.check\t{w}" for w in ("relations", "numrelations", "top", "constdoubles", "unitdoubles", "unsuffixed", "constunits")] \
         + ["c15.check\tunitconst\t1", "c15.check\tunitconstsym\t1", "c15.check\tvalues\t1"] \
         + [f"c15.check\tspace\t{w}\t{gen_sid.get(s, s)}" for s in sids if s in live
            for w in ("names", "table", "mks", "aliases", "suffixes", "registry")]
